@@ -34,6 +34,10 @@ def criteria_met(method, hist, opts):
                         and hist["mass_conservation_residual"][-1] < tr)
 
 
+def _arm(state):
+    state["second"] = "fault"
+
+
 def run_case(darsia, rng, tid, c):
     shape, h = tuple(c["shape"]), c["h"]
     grid = darsia.Grid(shape, [float(x) for x in h])
@@ -88,6 +92,13 @@ def run_case(darsia, rng, tid, c):
     in_loop_kw = c["method"] == "bregman"   # Bregman's in-loop solves pass reuse_solver=..., the final pressure solve does not
 
     def ls(*a, **k):
+        if state.get("second") == "fault":
+            calls["third"] = calls.get("third", 0) + 1
+            if calls["third"] == 2:        # exactly one failure: the first inner solve after the initial Darcy solve
+                state["second"] = True
+                calls["third_injected"] = True
+                raise InjectedFault("injected failure of the first inner solve of a later run on the same solver object")
+            return orig_ls(*a, **k)
         if state.get("second"):
             return orig_ls(*a, **k)
         i = calls["n"]
@@ -221,7 +232,7 @@ def run_case(darsia, rng, tid, c):
         snap = {k: np.array(info[k], copy=True) for k in keys}
         b1, b2 = random_masses(random.Random(c["mseed"] + 1), shape, "dense")
         imgb1, imgb2 = make_images(darsia, shape, h, b1, b2)
-        e2 = dict(base, op="second", raised=0, first_unchanged=0, changed=[], freshexp=3)
+        e2 = dict(base, op="second", raised=0, first_unchanged=0, changed=[], freshexp=3, conv_same=1, third_flagged=1)
         try:
             state["second"] = True
             with warnings.catch_warnings():
@@ -237,6 +248,15 @@ def run_case(darsia, rng, tid, c):
             dev = max(abs(float(d2) - float(d3)) / scale2,
                       float(np.abs(np.asarray(info2["flux"]) - np.asarray(info3["flux"])).max()) / max(1e-300, float(np.abs(np.asarray(info3["flux"])).max())))
             e2["freshexp"] = exponent(dev)
+            e2["conv_same"] = int(bool(info2["converged"]) == bool(info3["converged"]))
+            # a third run on the same object whose first iteration fails: flagged non-converged whatever the earlier runs reported
+            calls["third"] = 0
+            with warnings.catch_warnings(record=True) as wl3:
+                warnings.simplefilter("always")
+                with np.errstate(all="ignore"):
+                    _arm(state)
+                    d4, info4 = w1(imgb1, imgb2)
+            e2["third_flagged"] = int(not bool(info4["converged"])) if calls.get("third_injected") else 1
         except Exception as ex:  # noqa
             e2["raised"] = 1
             e2["error"] = repr(ex)[:200]
